@@ -1,4 +1,4 @@
 SPECIFICATION Spec
-CONSTANTS FixZ1=TRUE Procs={"syncdb","syncdb2","disable","snap","enable"}
-INVARIANTS LocksFree NoDeadlock NoLeakAfterClose
+CONSTANTS FixZ1=TRUE FixQ1=TRUE Procs={"syncdb","syncdb2","disable","snap","enable"}
+INVARIANTS LocksFree NoDeadlock NoLeakAfterClose ReadLockWhileOpen
 CHECK_DEADLOCK FALSE
